@@ -1,4 +1,6 @@
 //! C08: Dfs, Bfs, DfsPostOrder, Topo, depth_first_search on SymGraph (lazy adjacency) with symbolic visitor control.
+#[path = "c08/realreset.rs"]
+mod realreset;
 use petgraph::visit::{depth_first_search, Bfs, Control, Dfs, DfsEvent, DfsPostOrder, Topo, Walker};
 use petgraph::{Directed, EdgeType, Undirected};
 use symx::driver::*;
@@ -753,6 +755,7 @@ fn make(tier: &str, _seed: u64) -> Vec<Box<dyn Harness>> {
     for val in 0..64 {
         v.push(Box::new(Inst { kind: Kind::Topo, n: 4, directed: true, start: 0, second: 0, split_bits: 6, split_val: val, max_dev: 0, multi: true }));
     }
+    v.push(Box::new(realreset::RealReset));
     let mut add = |kind: Kind, n: usize, directed: bool, start: usize, second: usize, split_bits: usize| {
         for val in 0..(1usize << split_bits) {
             v.push(Box::new(Inst { kind, n, directed, start, second, split_bits, split_val: val, max_dev: 3, multi: false }) as Box<dyn Harness>);
